@@ -419,7 +419,7 @@ def solve_portfolio(text: str, timeout: float, solvers=("z3", "z3-new", "cvc5"))
     for s in solvers:
         if s in ("z3-new", "cvc5") and "QF_UFNRA" in text[:40] and s == "cvc5":
             pass
-        v, out, dt = run_solver(text, timeout, s)
+        v, out, dt = run_solver(text, timeout if s == "z3" else min(timeout, 30 if s == "z3-new" else 20), s)
         total += dt
         log.append((s, v, round(dt, 3)))
         if v in ("sat", "unsat"):
